@@ -1438,6 +1438,7 @@ def make_builtins(ip):
             return args[1]
         ip.raise_py('StopIteration')
     B['next'] = I.Builtin('next', bnext)
+    B['slice'] = I.Builtin('slice', lambda ip, a, k: slice(*a), typ=lambda v: isinstance(v, slice))
     B['iter'] = I.Builtin('iter', lambda ip, a, k: I.IterV(ip.iterate(a[0])))
 
     def bpow(ip, args, kwargs):
